@@ -367,8 +367,36 @@ def ragged_basic(B):
     B.obs.append(('dumpc2', B.dump('c')))
 
 
+def ragged_fail(B):
+    d = B.darr
+
+    class Boom(Exception):
+        pass
+    for tag, it in (('a', 'int64'), ('b', 'int8')):
+        ra = d.asraggedarray(B.path(tag), [B.arr('s0' + tag, 2, (), 'float32', 'little', 1)], indextype=it,
+                             accessmode='r+')
+
+        def g1():
+            yield B.arr('g1' + tag, 1, (), 'float32', 'little', 10)
+            raise Boom()
+        attempt(B, 'boom' + tag, lambda: ra.iterappend(g1()))
+        attempt(B, 'open1' + tag, lambda: d.RaggedArray(B.path(tag)))
+        B.obs.append(('dump1' + tag, B.dump(tag)))
+    ra = d.asraggedarray(B.path('c'), [B.arr('c0', 100, (), 'int16', 'little', 1)], indextype='int8',
+                         accessmode='r+')
+    attempt(B, 'overflow', lambda: ra.append(B.arr('c1', 100, (), 'int16', 'little', 1)))
+    attempt(B, 'open2', lambda: d.RaggedArray(B.path('c')))
+    dd = B.dump('c')
+    B.obs.append(('dump2', dd))
+    rb = d.asraggedarray(B.path('e'), [B.arr('e0', 2, (2,), 'int16', 'little', 1)], accessmode='r+')
+    attempt(B, 'wrongatom', lambda: rb.iterappend([B.arr('e1', 1, (2,), 'int16', 'little', 9),
+                                                    B.arr('e2', 1, (3,), 'int16', 'little', 9)]))
+    attempt(B, 'open3', lambda: d.RaggedArray(B.path('e')))
+    B.obs.append(('dump3', B.dump('e')))
+
+
 SCENARIOS = {f.__name__: f for f in [array_basic, array_append, array_truncate, array_assign,
-                                        array_failappend, ragged_basic]}
+                                        array_failappend, ragged_basic, ragged_fail]}
 
 
 def run(names, stub_readme=True):
